@@ -67,11 +67,27 @@ func init() {
 				{Name: "hostile", Bin: "vchild", Quick: 16, Thorough: 16},
 				{Name: "v6", Bin: "vchild", Quick: 8, Thorough: 16},
 			},
-			Require: []string{"datagrams_completed", "duplicate_fragments_fed", "histories_out_of_order", "passthrough_packets", "permutations_enumerated", "hostile_fragments_fed", "v6_datagrams_completed", "discards"},
+			Require: []string{"datagrams_completed", "duplicate_fragments_fed", "histories_out_of_order", "passthrough_packets", "permutations_enumerated", "hostile_fragments_fed", "v6_datagrams_completed", "discards", "oversize_sets_fed"},
 		},
 		LevelText: "Runtime monitor with a reference placement model per (src,dst,id): the real defragmenters are fed generated benign and hostile fragment histories and every return value is checked against the model. Exploration: histories are sampled (small permutation sets enumerated).",
 		LevelNote: trusted,
 		Technique: "runtime monitoring: reference-model oracle (fragment placement) over generated benign/hostile histories",
 		DesignRef: "DESIGN.md §3 C13",
+	})
+	asmRule := "History generator: per direction a PRNG byte stream (<= 16 KiB quick / 64 KiB thorough, half of the cases <= 600 bytes with 1..8-byte segments), ISN from {0, 1, 2^31+-k, 2^32-len-k..2^32-1 (wrap inside the stream at every alignment), 0xffffffff-k, random}; segment sizes from {1,2,7,100,1460,1900,1901,4000,9000} or PRNG ranges; arrival in order / reversed / k-local shuffles / random permutation / SYN late; retransmissions = exact duplicates, sub/supersets, partial overlaps with consistent data, duplicated SYN; FIN/RST last in sequence space; 1-in-10 directions without SYN; FlushOlderThan at PRNG logical times and cut-offs; per-connection / total page limits {1,2,5}; final FlushAll. perm phase: ALL permutations of SYN+1..4 (thorough 5) data segments x every placement of one duplicate x 4 ISNs around the wrap. Oracle: cursor over the sender's stream per stream object and direction whose first delivery had Start. Non-trivial = history with at least one segment arriving before a lower-offset one; distinct by history hash."
+	add(Spec{
+		PropSpec: vlib.PropSpec{
+			ID: "C10", Level: "exploration", Rule: asmRule,
+			Assumptions: []string{"segments are handed to Assembler.AssembleWithTimestamp as layers.TCP values built by the harness (no decoding involved)", "directions whose start was never seen are checked for lifecycle only"},
+			Phases: []vlib.Phase{
+				{Name: "random", Bin: "vtcpasm", Quick: 16, Thorough: 16},
+				{Name: "perm", Bin: "vtcpasm", Quick: 16, Thorough: 16},
+			},
+			Require: []string{"started_directions_checked", "histories_with_wrap", "histories_with_overlap", "histories_with_ooo", "limit_forced_releases", "directions_with_announced_skip", "permutation_histories", "histories_with_flusholder"},
+		},
+		LevelText: "Runtime monitor: the real tcpassembly.Assembler is fed generated segment histories; every Reassembled/ReassemblyComplete callback is checked online against a cursor model of the sender's byte stream (exactly-once, in-order, skips only over never-arrived bytes and only in flush / limit context). Exploration over sampled histories, small permutation sets enumerated.",
+		LevelNote: trusted,
+		Technique: "runtime monitoring: online trace checker (cursor model) over recorded stream callbacks",
+		DesignRef: "DESIGN.md §3 C09/C10",
 	})
 }
